@@ -7,6 +7,7 @@
  * external actor still has something to do (quiescence account).  See DESIGN.md 3 C11.
  */
 #include <signal.h>
+#include <fcntl.h>
 #include <sys/wait.h>
 #include <iv_wait.h>
 #include <time.h>
@@ -22,6 +23,7 @@ struct child {
 	struct iv_wait_interest *wi;		/* malloc'ed, freed at unregister */
 	_Atomic int	registered;
 	_Atomic int	outstanding;		/* commands whose status change was not reaped yet */
+	int64_t		stuck_since;		/* real time at which a waiting, unannounced status was first seen with everything blocked */
 	_Atomic int	dead_reaped;		/* terminating status returned by wait4 */
 	_Atomic uint64_t dead_seq;
 	_Atomic uint64_t reg_done_seq, unreg_seq;
@@ -49,7 +51,7 @@ static _Atomic int ng;
 
 static struct {
 	uint64_t cases, children, spawned, forked_with_interest, strangers, statuses_reaped, statuses_delivered, stops, conts, exits, kills,
-		 kill_helper_calls, kill_helper_dead, unreg_in_handler, immediate_exits, stranger_deaths, zombie_checks, unreg_other, batches;
+		 kill_helper_calls, kill_helper_dead, unreg_in_handler, immediate_exits, stranger_deaths, zombie_checks, unreg_other, batches, missed_statuses;
 } S;
 static _Atomic long c_reaped, c_delivered, c_killcalls, c_killdead, c_stranger_deaths;
 
@@ -73,6 +75,16 @@ void hk_fork(pid_t pid)
 {
 	if (pid > 0 && tl_spawning != NULL)
 		tl_spawning->pid = pid;		/* still inside the library's spawn call, before its lock is released */
+}
+
+/* gives up one outstanding action of the child, if there is one (the reaper and the stuck-status observer may race) */
+static int take_outstanding(struct child *c)
+{
+	int v = atomic_load(&c->outstanding);
+	while (v > 0)
+		if (atomic_compare_exchange_weak(&c->outstanding, &v, v - 1))
+			return 1;
+	return 0;
 }
 
 void hk_wait4(pid_t arg, int options, pid_t ret, int status)
@@ -103,12 +115,74 @@ void hk_wait4(pid_t arg, int options, pid_t ret, int status)
 		/* continue it at once; the outstanding action is now "continued" (no window in which the child looks idle and stopped) */
 		hist(c, 'a');
 		if (__real_kill(ret, SIGCONT) < 0) {
-			atomic_fetch_sub(&c->outstanding, 1);
-			vt_ext_add(-1);
+			if (take_outstanding(c))
+				vt_ext_add(-1);
 		}
-	} else if (atomic_load(&c->outstanding) > 0) {
-		atomic_fetch_sub(&c->outstanding, 1);
+	} else if (take_outstanding(c)) {
 		vt_ext_add(-1);
+	}
+	c->stuck_since = 0;
+}
+
+/*
+ * Called by the shim when every thread is blocked, every loop thread has confirmed an empty poll at the current epoch,
+ * and actions of children are still outstanding.  If such a child has a status change waiting to be collected (peeked with
+ * WNOWAIT) and SIGCHLD is not pending, the kernel's part is over and the library has let it pass: nothing but an
+ * unrelated SIGCHLD will make it look again.  The picture has to last 200 ms of real time (the kernel makes a stop
+ * waitable a moment before it notifies the parent) before it is reported and the action is written off.
+ */
+int __real_clock_gettime(clockid_t, struct timespec *);
+static int sigchld_pending(void)
+{
+	char buf[2048], *p;
+	int fd = open("/proc/self/status", O_RDONLY), n;
+	unsigned long long shd = ~0ULL;
+	if (fd < 0)
+		return 1;
+	n = (int)__real_read(fd, buf, sizeof(buf) - 1);
+	__real_close(fd);
+	if (n <= 0)
+		return 1;
+	buf[n] = 0;
+	p = strstr(buf, "ShdPnd:");
+	if (p != NULL)
+		shd = strtoull(p + 7, NULL, 16);
+	return (shd >> (SIGCHLD - 1)) & 1;
+}
+
+void hk_ext_stuck(void)
+{
+	int i, n = nch;
+	struct timespec ts;
+	int64_t now;
+
+	__real_clock_gettime(CLOCK_MONOTONIC, &ts);
+	now = (int64_t)ts.tv_sec * 1000000000LL + ts.tv_nsec;
+	for (i = 0; i < n; i++) {
+		struct child *c = &ch[i];
+		siginfo_t si;
+		if (c->pid <= 0 || atomic_load(&c->outstanding) <= 0)
+			continue;
+		memset(&si, 0, sizeof(si));
+		if (waitid(P_PID, (id_t)c->pid, &si, WNOHANG | WNOWAIT | WEXITED | WSTOPPED | WCONTINUED) != 0 || si.si_pid != c->pid || sigchld_pending()) {
+			c->stuck_since = 0;
+			continue;
+		}
+		if (c->stuck_since == 0) {
+			c->stuck_since = now;
+			continue;
+		}
+		if (now - c->stuck_since < 200000000LL)
+			continue;
+		c->stuck_since = 0;
+		hist(c, '!');
+		S.missed_statuses++;
+		mon_viol("C11", "status-change-missed", g_method,
+			 "pid %d (%s) has a status change waiting (si_code %d, status %d), SIGCHLD is not pending and every thread is blocked: the library passed it over; history %s",
+			 (int)c->pid, c->kind == CK_STRANGER ? "no interest" : c->kind == CK_SPAWN ? "spawned through the library" : c->kind == CK_ANCHOR ? "anchor" : "forked, then registered",
+			 si.si_code, si.si_status, c->hist);
+		while (take_outstanding(c))
+			vt_ext_add(-1);
 	}
 }
 
